@@ -213,6 +213,12 @@ class Fn:
         if self.kind == "feature" and self.is_self_attr(f, "_do_seq_slice"):
             if len(node.args) != 1 or node.keywords:
                 self.fail(node, "_do_seq_slice with other arguments")
+            inner = self.monadic(node.args[0], env)
+            if inner is not None:   # `self._do_seq_slice(self.parent[fmap])`: the argument is evaluated (and may raise) first
+                if inner[1] != STR:
+                    self.fail(node, f"_do_seq_slice of a {inner[1]}")
+                t = self.fresh("r")
+                return f"(match {inner[0]} with | .error e => .error e | .ok {t} => doSeqSlice comp self_map self_reversed {t})", STR
             a, ta = self.expr(node.args[0], env)
             if ta != STR:
                 self.fail(node, f"_do_seq_slice of a {ta}")
